@@ -80,9 +80,9 @@ def gen_cases(ctx):
             if special:
                 # ids that double as sentinels in careless code: 0 (falsy) and -1 ("not found" / "no atom")
                 pos = rng.sample(range(n), 2)
-                labels = [x for x in labels if x not in (0, -1)] + rng.sample(range(400, 500), 2)
+                labels = [x for x in labels if x not in (0, -1, -2)] + rng.sample(range(400, 500), 3)
                 labels = labels[:n]
-                labels[pos[0]], labels[pos[1]] = 0, -1
+                labels[pos[0]], labels[pos[1]] = rng.choice([(0, -1), (-1, -2), (-1, -2), (7, 7 + 2**61 - 1)])  # falsy / sentinel ids; ids with colliding hashes
             m = len(orderings(cls, labels, pat))
             if ctx.tier == "quick":
                 idx = sorted({0, *rng.sample(range(m), min(m, 40))})
